@@ -11,6 +11,7 @@ import (
 	"path/filepath"
 	"sort"
 	"strings"
+	"sync"
 	"time"
 )
 
@@ -31,7 +32,7 @@ var Checks = map[string]CheckSpec{
 	"C04": {Property: "C04", Level: "exploration", Profiles: []string{"book", "fixed", "book", "general"}, QuickS: 50, ThoroughS: 600},
 	"C05": {Property: "C05", Level: "exploration", Profiles: []string{"book", "fixed", "rounds", "general"}, QuickS: 45, ThoroughS: 600},
 	"C06": {Property: "C06", Level: "exploration", Profiles: []string{"fixed", "fixed", "general"}, Opts: ExecOpts{Lin: true}, QuickS: 45, ThoroughS: 600},
-	"C07": {Property: "C07", Level: "fault_enumeration", Profiles: []string{"general", "idle", "extreme", "clock", "book"}, Opts: ExecOpts{BankFailEnum: true, MaxEnumBlocks: 5}, QuickS: 60, ThoroughS: 900},
+	"C07": {Property: "C07", Level: "fault_enumeration", Profiles: []string{"general", "book", "idle", "extreme", "clock", "book"}, Opts: ExecOpts{BankFailEnum: true, MaxEnumBlocks: 5}, QuickS: 60, ThoroughS: 900},
 	"C08": {Property: "C08", Level: "exploration", Profiles: []string{"clock", "general", "rounds"}, QuickS: 45, ThoroughS: 600},
 	"C09": {Property: "C09", Level: "exploration", Profiles: []string{"vesting", "clock", "general"}, QuickS: 45, ThoroughS: 600},
 	"C10": {Property: "C10", Level: "exploration", Profiles: []string{"general", "messages"}, QuickS: 40, ThoroughS: 300},
@@ -198,13 +199,23 @@ func abbreviateSchedule(s *Schedule) json.RawMessage {
 }
 
 // RunWorker: search loop of one worker process.
-func RunWorker(spec CheckSpec, base int64, worker int, budget time.Duration, maxRuns int) *WorkerOut {
+// Progress is written before every execution, so that the parent can tell which schedule a
+// worker was executing if the process dies (a panic on the optimistic-execution goroutine of the
+// application cannot be recovered in-process: it kills the node, and the worker with it).
+type Progress struct {
+	Run      int
+	Seed     int64
+	Profile  string
+	Schedule *Schedule
+}
+
+func RunWorker(spec CheckSpec, base int64, worker int, budget time.Duration, maxRuns int, startRun int, progressPath string) *WorkerOut {
 	out := &WorkerOut{Worker: worker, Sigs: map[string]int{}, Stats: newStats()}
 	start := time.Now()
 	seenV := map[string]bool{}
 	var queue []*Schedule // variants waiting to be executed (fault enumeration engines)
 	var queueProf []string
-	for run := 0; ; run++ {
+	for run := startRun; ; run++ {
 		if time.Since(start) > budget || (maxRuns > 0 && run >= maxRuns) {
 			break
 		}
@@ -220,6 +231,11 @@ func RunWorker(spec CheckSpec, base int64, worker int, budget time.Duration, max
 			if spec.Custom == "hooks" {
 				s.Cfg.Listeners = 1 + run%3
 				s.Cfg.Replicas = 0
+			}
+		}
+		if progressPath != "" {
+			if b, err := json.Marshal(Progress{Run: run, Seed: seed, Profile: prof, Schedule: s}); err == nil {
+				_ = os.WriteFile(progressPath, b, 0o644)
 			}
 		}
 		res := Execute(s, spec.Opts)
@@ -305,6 +321,9 @@ func hasClass(res *RunResult, prop, rule, key string) *Violation {
 // same violation class (property, rule, key) persists.
 func Shrink(s *Schedule, opts ExecOpts, prop, rule, key string, budget time.Duration) (*Schedule, int) {
 	start := time.Now()
+	if opts.BankFailEnum {
+		opts.EnumAll = true
+	}
 	cur := cloneSchedule(s)
 	tries := 0
 	still := func(c *Schedule) bool {
@@ -445,6 +464,9 @@ func Replay(path string) (bool, *RunResult, *ReplayFile, error) {
 		return false, nil, nil, err
 	}
 	opts := rf.Opts
+	if opts.BankFailEnum {
+		opts.EnumAll = true
+	}
 	if rf.Property == "C14" && rf.Schedule.Cfg.Replicas < 16 {
 		// map iteration order cannot be seeded: raise the number of samples so that the replay reproduces
 		opts.ReplayK = 16
@@ -529,39 +551,23 @@ func RunCheck(self string, prop, tier, verifDir string) int {
 		return 2
 	}
 	defer os.RemoveAll(tmp)
-	type proc struct {
-		cmd *exec.Cmd
-		out string
+	type crash struct {
+		Seed    int64
+		Profile string
+		Sched   *Schedule
+		Panic   string
 	}
-	var procs []proc
-	for w := 0; w < workers; w++ {
-		out := filepath.Join(tmp, fmt.Sprintf("w%d.json", w))
-		cmd := exec.Command(self, "worker", "--prop", prop, "--seed", fmt.Sprint(seed), "--worker", fmt.Sprint(w), "--budget-s", fmt.Sprint(budgetS), "--tier", tier, "--out", out)
-		cmd.Env = append(os.Environ(), "GOMAXPROCS=2")
-		cmd.Stderr = os.Stderr
-		if err := cmd.Start(); err != nil {
-			fmt.Println("start worker:", err)
-			return 2
-		}
-		procs = append(procs, proc{cmd, out})
-	}
+	var crashes []crash
 	total := &WorkerOut{Sigs: map[string]int{}, Stats: newStats()}
 	failed := 0
-	for _, p := range procs {
-		if err := p.cmd.Wait(); err != nil {
-			fmt.Println("worker failed:", err)
-			failed++
-			continue
-		}
-		b, err := os.ReadFile(p.out)
+	merge := func(path string) bool {
+		b, err := os.ReadFile(path)
 		if err != nil {
-			failed++
-			continue
+			return false
 		}
 		var wo WorkerOut
 		if err := json.Unmarshal(b, &wo); err != nil {
-			failed++
-			continue
+			return false
 		}
 		total.Runs += wo.Runs
 		total.NonTrivial += wo.NonTrivial
@@ -575,6 +581,71 @@ func RunCheck(self string, prop, tier, verifDir string) int {
 		}
 		total.HarnessErr = append(total.HarnessErr, wo.HarnessErr...)
 		total.Seeds = append(total.Seeds, wo.Seeds...)
+		return true
+	}
+	deadline := time.Now().Add(time.Duration(budgetS) * time.Second)
+	results := make(chan []crash, workers)
+	failures := make(chan int, workers)
+	var mergeMu sync.Mutex
+	for w := 0; w < workers; w++ {
+		go func(w int) {
+			var mine []crash
+			startRun := 0
+			bad := 0
+			for attempt := 0; attempt < 6; attempt++ {
+				remain := int(time.Until(deadline).Seconds())
+				if attempt > 0 && remain < 3 {
+					break
+				}
+				if remain < 1 {
+					remain = 1
+				}
+				out := filepath.Join(tmp, fmt.Sprintf("w%d-%d.json", w, attempt))
+				prog := filepath.Join(tmp, fmt.Sprintf("w%d.progress", w))
+				errPath := filepath.Join(tmp, fmt.Sprintf("w%d-%d.stderr", w, attempt))
+				ef, _ := os.Create(errPath)
+				cmd := exec.Command(self, "worker", "--prop", prop, "--seed", fmt.Sprint(seed), "--worker", fmt.Sprint(w), "--budget-s", fmt.Sprint(remain), "--tier", tier, "--out", out, "--start-run", fmt.Sprint(startRun), "--progress", prog)
+				cmd.Env = append(os.Environ(), "GOMAXPROCS=2")
+				cmd.Stderr = ef
+				cmd.Stdout = ef
+				err := cmd.Run()
+				ef.Close()
+				if err == nil {
+					mergeMu.Lock()
+					ok := merge(out)
+					mergeMu.Unlock()
+					if !ok {
+						bad++
+					}
+					break
+				}
+				// the worker process died: which schedule was it executing?
+				var pr Progress
+				pb, perr := os.ReadFile(prog)
+				if perr != nil || json.Unmarshal(pb, &pr) != nil || pr.Schedule == nil {
+					bad++
+					break
+				}
+				eb, _ := os.ReadFile(errPath)
+				mine = append(mine, crash{Seed: pr.Seed, Profile: pr.Profile, Sched: pr.Schedule, Panic: panicHead(string(eb))})
+				startRun = pr.Run + 1
+			}
+			failures <- bad
+			results <- mine
+		}(w)
+	}
+	for w := 0; w < workers; w++ {
+		failed += <-failures
+		crashes = append(crashes, (<-results)...)
+	}
+	for _, c := range crashes {
+		total.Stats.Probes["node_process_crashes"]++
+		msg := fmt.Sprintf("the node process died while executing seed %d (profile %s): %s", c.Seed, c.Profile, c.Panic)
+		if prop == "C07" {
+			total.Found = append(total.Found, FoundViolation{V: Violation{Property: "C07", Rule: "process.crash", Key: classifyHalt(c.Panic), Detail: msg, Block: len(c.Sched.Blocks) - 1, Tx: -1}, Seed: c.Seed, Profile: c.Profile, Schedule: c.Sched})
+		} else {
+			fmt.Printf("NOTE: %s - a crash of the node is C07's subject; this worker continued with its next seed\n", msg)
+		}
 	}
 	if failed > 0 {
 		fmt.Printf("HARNESS: %d worker(s) failed\n", failed)
@@ -643,11 +714,21 @@ func reportAndEvidence(spec CheckSpec, tier string, seed int64, verifDir string,
 			if nViol > 3 {
 				budget = 0 // only the first classes are minimised; the rest are written as found
 			}
-			sh, tries := Shrink(f.Schedule, spec.Opts, f.V.Property, f.V.Rule, f.V.Key, budget)
-			r := Execute(sh, spec.Opts)
+			var sh *Schedule
+			var tries int
+			var r *RunResult
 			detail := f.V.Detail
-			if v := hasClass(r, f.V.Property, f.V.Rule, f.V.Key); v != nil {
-				detail = v.Detail
+			if f.V.Rule == "process.crash" {
+				// executing it in this process would kill the check itself; the replay command runs it in a child process
+				sh, r = f.Schedule, &RunResult{}
+			} else {
+				sh, tries = Shrink(f.Schedule, spec.Opts, f.V.Property, f.V.Rule, f.V.Key, budget)
+				ro := spec.Opts
+				ro.EnumAll = ro.BankFailEnum
+				r = Execute(sh, ro)
+				if v := hasClass(r, f.V.Property, f.V.Rule, f.V.Key); v != nil {
+					detail = v.Detail
+				}
 			}
 			rf := &ReplayFile{Property: f.V.Property, Rule: f.V.Rule, Key: f.V.Key, Detail: detail, Seed: f.Seed, Profile: f.Profile,
 				TraceHash: r.TraceHash, Opts: spec.Opts, Shrunk: fmt.Sprintf("%d -> %d blocks in %d executions", len(f.Schedule.Blocks), len(sh.Blocks), tries), Schedule: sh}
@@ -891,4 +972,24 @@ func buildProbeC10() (map[string]interface{}, *FoundViolation) {
 		return out, &FoundViolation{V: Violation{Property: "C10", Rule: "default_build.switch_on", Key: "binary", Detail: "the default build of cmd/fundraisingd registers the testing-only add-allowed-bidder command: keeper.EnableAddAllowedBidder is true without the testing link flag", Block: 0, Tx: -1}}
 	}
 	return out, nil
+}
+
+func panicHead(stderr string) string {
+	lines := strings.Split(stderr, "\n")
+	for i, ln := range lines {
+		if strings.HasPrefix(ln, "panic:") || strings.HasPrefix(ln, "fatal error:") {
+			out := ln
+			for _, l2 := range lines[i+1:] {
+				if strings.Contains(l2, "x/fundraising/") {
+					out += " @ " + strings.TrimSpace(l2)
+					break
+				}
+			}
+			return out
+		}
+	}
+	if len(stderr) > 200 {
+		return stderr[len(stderr)-200:]
+	}
+	return stderr
 }
